@@ -66,6 +66,7 @@ type Exec struct {
 	inlined       map[string]bool
 	forceContract map[string]bool
 	notes         map[string]bool
+	deepSite      bool
 	curCallee     string // full name of the callee a "site call" assertion is being evaluated at
 	curSelect     *ssa.Select // the select statement a "site select" assertion is being evaluated at
 	symObjs       map[int]bool // objects standing for the pointees of symbolic (input or havocked) pointers
